@@ -166,6 +166,50 @@ func (w *World) isAdvancingCall(in ssa.Instruction) bool {
 	return false
 }
 
+// cursorStoreForward: a direct assignment to Lexer.pos (outside skip/skipN) is accepted when LEXBOUNDS proves, in every
+// context it is reached in, that the new value is neither before the old cursor nor behind the end of the input.
+func (w *World) cursorStoreForward(st *ssa.Store) (bool, string) {
+	if w.cursorStores == nil {
+		w.cursorStores = map[string][2]int{}
+		e := w.newLexBounds()
+		for _, fn := range w.ModFns {
+			if fn.Parent() != nil || fn.Synthetic != "" || !e.inScope(fn) || fnPkgPath(fn) != modRoot {
+				continue
+			}
+			if fn.Signature.Recv() == nil || !w.isLexerPtr(fn.Signature.Recv().Type()) {
+				continue
+			}
+			if fn.Name() == "nextToken" || fn.Name() == "NextToken" {
+				for _, mode := range []bool{false, true} {
+					e.runRoot(fn, map[string]bool{"noPanic": mode})
+				}
+			}
+		}
+		for _, fn := range w.ModFns {
+			if fn.Parent() != nil || fn.Synthetic != "" || !e.inScope(fn) || fnPkgPath(fn) != modRoot || e.visited[fn] {
+				continue
+			}
+			e.runRoot(fn, nil)
+		}
+		for _, ob := range e.results() {
+			if ob.rule == "C13/R1" || (ob.rule == "C03/R6" && strings.Contains(ob.construct, "the cursor stays within the input")) {
+				c := w.cursorStores[ob.where]
+				c[0] += ob.total
+				c[1] += ob.failed
+				w.cursorStores[ob.where] = c
+			}
+		}
+	}
+	c, ok := w.cursorStores[w.pos(st.Pos())]
+	switch {
+	case !ok || c[0] == 0:
+		return false, "the interpretation of the lexer did not reach it"
+	case c[1] > 0:
+		return false, fmt.Sprintf("in %d of %d context(s) the new value is not proved to lie between the old cursor and the end of the input", c[1], c[0])
+	}
+	return true, fmt.Sprintf("in all %d context(s) the new value lies between the old cursor and the end of the input (LEXBOUNDS)", c[0])
+}
+
 func ruleC13R1(w *World, r *Report) {
 	const rule = "C13/R1"
 	r.rule(rule, "Lexer.pos is stored only in skip/skipN; the position/trivia fields of a token are stored only in (*Lexer).nextToken; the parser's '>>' split rewrites Kind/Raw/Pos of the current token only under Kind == \">>\" with Kind/Raw = \">\" and Pos = Pos + 1", 8)
@@ -199,8 +243,10 @@ func ruleC13R1(w *World, r *Report) {
 						} else {
 							r.bad(rule, construct, w.pos(st.Pos()), "cursor is assigned, not advanced")
 						}
+					} else if ok, detail := w.cursorStoreForward(st); ok {
+						r.ok(rule, construct, w.pos(st.Pos()), "written outside skip/skipN, but "+detail)
 					} else {
-						r.bad(rule, construct, w.pos(st.Pos()), "the byte cursor is written outside skip/skipN: tokens no longer tile the input")
+						r.bad(rule, construct, w.pos(st.Pos()), "the byte cursor is written outside skip/skipN and "+detail+": tokens no longer tile the input")
 					}
 				case w.isTokenPtr(fa.X.Type()) || isNamed(fa.X.Type(), modRoot+"/token", "Token"):
 					switch name {
